@@ -53,11 +53,11 @@ func (dc *DocumentChunker) ChunkDocument(doc *model.Document) *ChunkCollection {
 	// Build section context from headings
 	toc := doc.TableOfContents()
 	currentSection := []string{}
-	currentHeadingLevel := 0
+	sectionLevels := []int{} // heading level of each entry of currentSection
 
 	// Process each page
 	for _, page := range doc.Pages {
-		pageChunks := dc.chunkPage(page, docTitle, &currentSection, &currentHeadingLevel, toc, &chunkIndex)
+		pageChunks := dc.chunkPage(page, docTitle, &currentSection, &sectionLevels, toc, &chunkIndex)
 		chunks = append(chunks, pageChunks...)
 	}
 
@@ -70,7 +70,7 @@ func (dc *DocumentChunker) ChunkDocument(doc *model.Document) *ChunkCollection {
 }
 
 // chunkPage chunks a single page
-func (dc *DocumentChunker) chunkPage(page *model.Page, docTitle string, currentSection *[]string, currentHeadingLevel *int, toc []model.TOCEntry, chunkIndex *int) []*Chunk {
+func (dc *DocumentChunker) chunkPage(page *model.Page, docTitle string, currentSection *[]string, sectionLevels *[]int, toc []model.TOCEntry, chunkIndex *int) []*Chunk {
 	var chunks []*Chunk
 
 	if page == nil {
@@ -100,7 +100,7 @@ func (dc *DocumentChunker) chunkPage(page *model.Page, docTitle string, currentS
 
 				// Update section path
 				headingLevel := getHeadingLevel(e.Text, toc, page.Number)
-				updateSectionPath(currentSection, currentHeadingLevel, headingLevel, e.Text)
+				enterSection(currentSection, sectionLevels, headingLevel, e.Text)
 
 				// Create heading chunk
 				chunk := dc.createHeadingChunk(e.Text, docTitle, *currentSection, headingLevel, page.Number, chunkIndex)
@@ -120,7 +120,7 @@ func (dc *DocumentChunker) chunkPage(page *model.Page, docTitle string, currentS
 			flushTextBlock()
 
 			// Update section path
-			updateSectionPath(currentSection, currentHeadingLevel, e.Level, e.Text)
+			enterSection(currentSection, sectionLevels, e.Level, e.Text)
 
 			// Create heading chunk
 			chunk := dc.createChunkFromHeading(e, docTitle, *currentSection, page.Number, chunkIndex)
@@ -434,6 +434,22 @@ func getHeadingLevel(text string, toc []model.TOCEntry, pageNum int) int {
 	}
 
 	return 1 // Default to level 1
+}
+
+// enterSection makes headingText the innermost entry of the section path: every
+// open section whose heading level is the same or deeper is closed first, whatever
+// levels were skipped on the way down (H1, H3, H3 gives [H1 H3b], not [H1 H3a H3b]).
+// sectionLevels holds the heading level of each path entry.
+func enterSection(sectionPath *[]string, sectionLevels *[]int, newLevel int, headingText string) {
+	keep := len(*sectionLevels)
+	for keep > 0 && (*sectionLevels)[keep-1] >= newLevel {
+		keep--
+	}
+	// Chunks created so far keep the path they were given: new storage
+	path := make([]string, 0, keep+1)
+	path = append(path, (*sectionPath)[:keep]...)
+	*sectionPath = append(path, strings.TrimSpace(headingText))
+	*sectionLevels = append((*sectionLevels)[:keep:keep], newLevel)
 }
 
 // updateSectionPath updates the section path based on heading level
